@@ -51,11 +51,8 @@ CatText == <<
   "1.0e308", "1.7976931348623157e308", "1.7976931348623158e308", "1.7976931348623159e308",
   "1.797693134862315807e308", "1.797693134862315808e308", "1.0e309", "1.0e400", "-1.0e400", "0.0e400", "1.0e-400", "1.0e999999999999",
   "1.0e-999999999999", "0.0e999999999999",
-  "179769313486231570814527423731704356798070567525844996598917476803157260780028538760589558632766878171540458953514382464234321326889464182768467546703537516986049910576551282076245490090389328944075868508455133942304583236903222948165808559332123348274797826204144723168738177180919299881250404026184124858368.0",
-  "179769313486231580793728971405303415079934132710037826936173778980444968292764750946649017977587207096330286416692887910946555547851940402630657488671505820681908902000708383676273854845817711531764475730270069855571366959622842914819860834936475292719074168444365510704342711559699508093042880177904174497791.0",
   "179769313486231580793728971405303415079934132710037826936173778980444968292764750946649017977587207096330286416692887910946555547851940402630657488671505820681908902000708383676273854845817711531764475730270069855571366959622842914819860834936475292719074168444365510704342711559699508093042880177904174497792.0",
   "4.9e-324", "5.0e-324", "4.0e-324", "2.5e-324", "2.4e-324", "2.4703282292062327e-324", "2.4703282292062328e-324", "7.4e-324", "7.5e-324",
-  "0.00000000000000000000000000000000000000000000000000000000000000000000000000000000000000000000000000000000000000000000000000000000000000000000000000000000000000000000000000000000000000000000000000000000000000000000000000000000000000000000000000000000000000000000000000000000000000000000000000000000000000000000000000000000000000247032822920623272088284396434110686182529901307162382212792841250337753635104375932649918180817996189898282347722858865463328355177969898199387398005390939063150356595155702263922908583924491051844359318028499365361525003193704576782492193656236698636584807570015857692699037063119282795585513329278343384093519780155312465972635795746227664652728272200563740064854999770965994704540208281662262378573934507363390079677619305775067401763246736009689513405355374585166611342237666786041621596804619144672918403005300575308490487653917113865916462395249126236538818796362393732804238910186723484976682350898633885879256283027559956575244555072551893136908362547791869486679949683240497058210285131854513962138377228261454376934125320985913276672363281251",
   "2.2250738585072011e-308", "2.2250738585072012e-308", "2.2250738585072014e-308", "2.2250738585072009e-308", "2.225073858507201e-308",
   "2.2250738585072013830902327173324040642192159804623318306e-308",
   \* floats: ties and near-ties
@@ -90,6 +87,13 @@ CatText == <<
   "inf", "nan", "1.0Inf", "1.5NaN", "1.0e1.0", "1.0e1e1", "1,0", "1.0f", "1d0", "1.0d0", "0.1.", "a", "'1'", "\"1\"", "[1]", "1 .", "1. ", "X", "_1", "_", "", " "
 >>
 
+(* very long literals (309 and 1080 digits), thorough only: each costs seconds of BigInt arithmetic *)
+CatHeavy == <<
+  "179769313486231570814527423731704356798070567525844996598917476803157260780028538760589558632766878171540458953514382464234321326889464182768467546703537516986049910576551282076245490090389328944075868508455133942304583236903222948165808559332123348274797826204144723168738177180919299881250404026184124858368.0",
+  "179769313486231580793728971405303415079934132710037826936173778980444968292764750946649017977587207096330286416692887910946555547851940402630657488671505820681908902000708383676273854845817711531764475730270069855571366959622842914819860834936475292719074168444365510704342711559699508093042880177904174497791.0",
+  "0.00000000000000000000000000000000000000000000000000000000000000000000000000000000000000000000000000000000000000000000000000000000000000000000000000000000000000000000000000000000000000000000000000000000000000000000000000000000000000000000000000000000000000000000000000000000000000000000000000000000000000000000000000000000000000247032822920623272088284396434110686182529901307162382212792841250337753635104375932649918180817996189898282347722858865463328355177969898199387398005390939063150356595155702263922908583924491051844359318028499365361525003193704576782492193656236698636584807570015857692699037063119282795585513329278343384093519780155312465972635795746227664652728272200563740064854999770965994704540208281662262378573934507363390079677619305775067401763246736009689513405355374585166611342237666786041621596804619144672918403005300575308490487653917113865916462395249126236538818796362393732804238910186723484976682350898633885879256283027559956575244555072551893136908362547791869486679949683240497058210285131854513962138377228261454376934125320985913276672363281251"
+>>
+
 CatCodes == <<
   <<49, 95, 10, 48>>,                 \* 1_ LF 0
   <<49, 95, 9, 48>>,                  \* 1_ TAB 0
@@ -108,7 +112,8 @@ CatCodes == <<
   <<49, 0>>, <<0, 49>>, <<49, 46, 48, 0>>
 >>
 
-Cat == [i \in 1..Len(CatText) |-> Codes(CatText[i])] \o CatCodes
+CatAll == IF Tier = "quick" THEN CatText ELSE CatText \o CatHeavy
+Cat == [i \in 1..Len(CatAll) |-> Codes(CatAll[i])] \o CatCodes
 
 -----------------------------------------------------------------------------
 (* extra spellings / bit patterns chosen by the driver (seeded random samples; the values still come from this *)
@@ -201,12 +206,13 @@ Emit ==
 ExactDec(q, e) == IF e >= 0 THEN <<Mul(q, Pow2(e)), 0>> ELSE <<Mul(q, Pow(Five, 0 - e)), e>>
 Bits0(M, E) == IF IsZero(M) THEN BZero ELSE FloatBits(M, E)
 
-(* the checks on doubles below 2^-600 involve 5^1074-sized numbers; they are left to the thorough tier *)
-SaneFrom == IF Tier = "quick" THEN Mul(FromInt(400), P52) ELSE BZero
+(* the checks on doubles far from 1 involve numbers of 300 to 750 digits; they are left to the thorough tier *)
+SaneFrom == IF Tier = "quick" THEN Mul(FromInt(900), P52) ELSE BZero
+SaneTo   == IF Tier = "quick" THEN Mul(FromInt(1200), P52) ELSE SignBit
 SaneInt == (phase = "case" /\ kind = "int") => NumberOfText(Codes(ToDec(n))) = [k |-> "int", v |-> n]
 
 SaneFlt ==
-  (phase = "case" /\ kind = "flt" /\ src = "bound" /\ Cmp(n, SignBit) < 0 /\ Cmp(n, SaneFrom) >= 0) =>
+  (phase = "case" /\ kind = "flt" /\ src = "bound" /\ Cmp(n, SignBit) < 0 /\ Cmp(n, SaneFrom) >= 0 /\ Cmp(n, SaneTo) < 0) =>
     LET u   == Unpack(n)
         mag == IF u[1] THEN Sub(n, SignBit) ELSE n
         q   == u[2]
